@@ -349,7 +349,11 @@ func runServer(t *testing.T, sc *srvSc) (res verifsim.Result) {
 				streams[sk] = st
 			}
 			raw, req := sc.wire(r)
-			storeBefore, _ := d.valueStore.Get(ctx, string(sc.key(r)))
+			beforeKey := string(sc.key(r))
+			if req != nil {
+				beforeKey = string(req.GetKey()) // (a byte-flipped frame that still parses may carry another key)
+			}
+			storeBefore, _ := d.valueStore.Get(ctx, beforeKey)
 			if _, err := st.cli.Write(raw); err != nil {
 				st.dead = true
 				continue
